@@ -126,13 +126,12 @@ theorem jsd_cols_perm (log : α → α) (F : ι → κ → α) (items : List ι)
 
 theorem sum_zipWith_mul_zero (items : List ι) (w : List α) :
     (List.zipWith (fun (_ : ι) wi => wi * (0 : α)) items w).sum = 0 := by
-  apply List.sum_eq_zero
-  intro v hv
-  obtain ⟨i, _, _, h⟩ := List.mem_iff_getElem.mp hv |>.imp (fun i h => by
-    obtain ⟨hi, e⟩ := h
-    exact ⟨hi, trivial, trivial, e⟩)
-  rw [List.getElem_zipWith] at h
-  rw [← h, mul_zero]
+  induction items generalizing w with
+  | nil => rfl
+  | cons a t ih =>
+    cases w with
+    | nil => rfl
+    | cons b u => rw [List.zipWith_cons_cons, List.sum_cons, ih u, mul_zero, add_zero]
 
 /-- Labels at which every component vanishes do not change the JSD. -/
 theorem jsd_cols_append_zero (log : α → α) (F : ι → κ → α) (items : List ι) (w : List α)
@@ -168,10 +167,680 @@ theorem jsd_cols_perm_items (log : α → α) (F : ι → κ → α) {l l' : Lis
     mixVals_cols F _ _ L (by simpa using hne'), Lemmas.Diverge.zipWith_fst_snd,
     Lemmas.Diverge.zipWith_fst_snd, (h.map _).sum_eq]
   congr 3
-  apply List.map_congr_left
-  intro k _
+  funext k
   rw [Lemmas.Diverge.zipWith_fst_snd, Lemmas.Diverge.zipWith_fst_snd, (h.map _).sum_eq]
 
 end Cols
+
+/-! ### Several tables aligned over the union of their labels -/
+
+section Many
+variable {α κ κ' : Type} [DecidableEq κ] [DecidableEq κ']
+
+/-- The labels of several tables, in order of first appearance (`alignUnion` for any number of
+tables; for two tables these are the labels of `alignUnion`). -/
+def unionKeys (ts : List (Tab κ α)) : List κ := dedup (ts.flatMap keys)
+
+/-- Every table listed along the common labels (absent labels read `0`): the pmfs that
+`jsdVals` / `mixVals` take. -/
+def alignMany [Zero α] (ts : List (Tab κ α)) : List (List α) :=
+  ts.map (fun t => (unionKeys ts).map (lookupD 0 t))
+
+theorem mem_unionKeys {ts : List (Tab κ α)} {k : κ} :
+    k ∈ unionKeys ts ↔ ∃ t ∈ ts, k ∈ keys t := by
+  unfold unionKeys
+  rw [mem_dedup, List.mem_flatMap]
+
+theorem nodup_unionKeys (ts : List (Tab κ α)) : (unionKeys ts).Nodup := nodup_dedup _
+
+theorem unionKeys_perm_of_mem {ts ts' : List (Tab κ α)}
+    (h : ∀ k, (∃ t ∈ ts, k ∈ keys t) ↔ (∃ t ∈ ts', k ∈ keys t)) :
+    (unionKeys ts).Perm (unionKeys ts') := by
+  rw [List.perm_ext_iff_of_nodup (nodup_unionKeys _) (nodup_unionKeys _)]
+  intro k
+  rw [mem_unionKeys, mem_unionKeys, h k]
+
+theorem mem_keys_forall₂_perm {ts ts' : List (Tab κ α)} (h : List.Forall₂ List.Perm ts' ts)
+    (k : κ) : (∃ t ∈ ts', k ∈ keys t) ↔ (∃ t ∈ ts, k ∈ keys t) := by
+  induction h with
+  | nil => simp
+  | @cons a b _ _ hab _ ih =>
+    simp only [List.mem_cons, exists_eq_or_imp]
+    have e : k ∈ keys a ↔ k ∈ keys b := (hab.map (·.1)).mem_iff
+    rw [ih, e]
+
+theorem forall₂_and_nodup {ts ts' : List (Tab κ α)} (h : List.Forall₂ List.Perm ts' ts)
+    (hnd : ∀ t ∈ ts, (keys t).Nodup) :
+    List.Forall₂ (fun t' t => t'.Perm t ∧ (keys t).Nodup) ts' ts := by
+  induction h with
+  | nil => exact List.Forall₂.nil
+  | cons hab _ ih =>
+    exact List.Forall₂.cons ⟨hab, hnd _ List.mem_cons_self⟩
+      (ih (fun t ht => hnd t (List.mem_cons_of_mem _ ht)))
+
+variable [Ring α] [DecidableEq α]
+
+theorem alignMany_eq_cols (ts : List (Tab κ α)) :
+    alignMany ts = cols (fun t k => lookupD 0 t k) ts (unionKeys ts) := rfl
+
+/-- For two tables, `alignMany` lists the two components of `alignUnion`. -/
+theorem alignMany_pair (t1 t2 : Tab κ α) :
+    alignMany [t1, t2]
+      = [(alignUnion t1 t2).map Prod.fst, (alignUnion t1 t2).map Prod.snd] := by
+  unfold alignMany alignUnion unionKeys
+  simp [List.flatMap_cons, Function.comp_def]
+
+theorem keys_map_key (φ : κ → κ') (t : Tab κ α) :
+    keys (t.map (fun r => (φ r.1, r.2))) = (keys t).map φ := by
+  simp [keys, Function.comp_def]
+
+theorem unionKeys_map_inj (φ : κ → κ') (hφ : Function.Injective φ) (ts : List (Tab κ α)) :
+    unionKeys (ts.map (fun t => t.map (fun r => (φ r.1, r.2)))) = (unionKeys ts).map φ := by
+  unfold unionKeys
+  rw [← dedup_map_inj φ hφ, List.flatMap_map, List.map_flatMap]
+  congr 1
+  apply List.flatMap_congr
+  intro t _
+  exact keys_map_key φ t
+
+/-- **Relabelling**: the aligned pmfs of relabelled tables are the aligned pmfs. -/
+theorem alignMany_map_inj (φ : κ → κ') (hφ : Function.Injective φ) (ts : List (Tab κ α)) :
+    alignMany (ts.map (fun t => t.map (fun r => (φ r.1, r.2)))) = alignMany ts := by
+  unfold alignMany
+  rw [unionKeys_map_inj φ hφ, List.map_map]
+  apply List.map_congr_left
+  intro t _
+  simp only [Function.comp_apply]
+  rw [List.map_map]
+  apply List.map_congr_left
+  intro k _
+  simp only [Function.comp_apply]
+  exact lookupD_map_inj φ hφ t k
+
+/-- **Row order** of every table (keys pairwise distinct). -/
+theorem jsd_perm_rows (log : α → α) {ts ts' : List (Tab κ α)} (w : List α)
+    (h : List.Forall₂ List.Perm ts' ts) (hnd : ∀ t ∈ ts, (keys t).Nodup) :
+    jsdVals log (alignMany ts') w = jsdVals log (alignMany ts) w := by
+  have hk : ∀ k, (∃ t ∈ ts', k ∈ keys t) ↔ (∃ t ∈ ts, k ∈ keys t) := mem_keys_forall₂_perm h
+  have hnd' := forall₂_and_nodup h hnd
+  have e : alignMany ts' = cols (fun t k => lookupD 0 t k) ts (unionKeys ts') := by
+    unfold alignMany cols
+    apply map_eq_map_of_forall₂ _ _ _ hnd'
+    intro t' t ⟨hp, hn⟩
+    apply List.map_congr_left
+    intro k _
+    exact (lookupD_perm hp.symm hn 0 k).symm
+  rw [e, alignMany_eq_cols, jsd_cols_perm log _ ts w (unionKeys_perm_of_mem hk)]
+
+/-- **Order of the distributions**: permuting the (table, weight) pairs. -/
+theorem jsd_perm_dists (log : α → α) {l l' : List (Tab κ α × α)} (h : l'.Perm l) :
+    jsdVals log (alignMany (l'.map Prod.fst)) (l'.map Prod.snd)
+      = jsdVals log (alignMany (l.map Prod.fst)) (l.map Prod.snd) := by
+  have hk : ∀ k, (∃ t ∈ l'.map Prod.fst, k ∈ keys t) ↔ (∃ t ∈ l.map Prod.fst, k ∈ keys t) := by
+    intro k
+    constructor
+    · rintro ⟨t, ht, hk⟩; exact ⟨t, ((h.map _).mem_iff).mp ht, hk⟩
+    · rintro ⟨t, ht, hk⟩; exact ⟨t, ((h.map _).mem_iff).mpr ht, hk⟩
+  rw [alignMany_eq_cols, alignMany_eq_cols,
+    jsd_cols_perm log _ _ _ (unionKeys_perm_of_mem hk),
+    jsd_cols_perm_items log _ h]
+
+/-- **Appended rows of value zero** in every table. -/
+theorem jsd_append_zero (log : α → α) (tz : List (Tab κ α × Tab κ α)) (w : List α)
+    (hz : ∀ r ∈ tz, ∀ x ∈ r.2, x.2 = 0) :
+    jsdVals log (alignMany (tz.map (fun r => r.1 ++ r.2))) w
+      = jsdVals log (alignMany (tz.map Prod.fst)) w := by
+  let L := unionKeys (tz.map Prod.fst)
+  let L' := unionKeys (tz.map (fun r => r.1 ++ r.2))
+  have hsub : ∀ a ∈ L, a ∈ L' := by
+    intro a ha
+    obtain ⟨t, ht, hk⟩ := mem_unionKeys.mp ha
+    obtain ⟨r, hr, rfl⟩ := List.mem_map.mp ht
+    refine mem_unionKeys.mpr ⟨r.1 ++ r.2, List.mem_map.mpr ⟨r, hr, rfl⟩, ?_⟩
+    rw [keys_append]
+    exact List.mem_append_left _ hk
+  have hperm := perm_append_filter_of_subset (nodup_unionKeys _) (nodup_unionKeys _) hsub
+  have e : alignMany (tz.map (fun r => r.1 ++ r.2))
+      = cols (fun t k => lookupD 0 t k) (tz.map Prod.fst) L' := by
+    unfold alignMany cols
+    rw [List.map_map, List.map_map]
+    apply List.map_congr_left
+    intro r hr
+    apply List.map_congr_left
+    intro k _
+    exact lookupD_append_zero r.1 r.2 (hz r hr) k
+  rw [e, alignMany_eq_cols, jsd_cols_perm log _ _ w hperm, jsd_cols_append_zero]
+  intro k hk t ht
+  have hk' : k ∉ L := of_decide_eq_true (List.mem_filter.mp hk).2
+  apply lookupD_of_not_mem
+  intro hkt
+  exact hk' (mem_unionKeys.mpr ⟨t, ht, hkt⟩)
+
+/-- **Trimming** the stored zeros of every table (keys pairwise distinct). -/
+theorem jsd_trim (log : α → α) (ts : List (Tab κ α)) (w : List α)
+    (hnd : ∀ t ∈ ts, (keys t).Nodup) :
+    jsdVals log (alignMany (ts.map (fun t => t.filter (fun r => decide (r.2 ≠ 0))))) w
+      = jsdVals log (alignMany ts) w := by
+  let L := unionKeys ts
+  let L' := unionKeys (ts.map (fun t => t.filter (fun r => decide (r.2 ≠ 0))))
+  have hsub : ∀ a ∈ L', a ∈ L := by
+    intro a ha
+    obtain ⟨t', ht', hk⟩ := mem_unionKeys.mp ha
+    obtain ⟨t, ht, rfl⟩ := List.mem_map.mp ht'
+    exact mem_unionKeys.mpr ⟨t, ht, (keys_filter_sublist _ t).subset hk⟩
+  have hperm := perm_append_filter_of_subset (nodup_unionKeys _) (nodup_unionKeys _) hsub
+  have e : alignMany (ts.map (fun t => t.filter (fun r => decide (r.2 ≠ 0))))
+      = cols (fun t k => lookupD 0 t k) ts L' := by
+    unfold alignMany cols
+    rw [List.map_map]
+    apply List.map_congr_left
+    intro t ht
+    apply List.map_congr_left
+    intro k _
+    exact lookupD_trim t (hnd t ht) k
+  rw [e, alignMany_eq_cols, jsd_cols_perm log _ _ w hperm, jsd_cols_append_zero]
+  intro k hk t ht
+  have hk' : k ∉ L' := of_decide_eq_true (List.mem_filter.mp hk).2
+  rw [← lookupD_trim t (hnd t ht) k]
+  apply lookupD_of_not_mem
+  intro hkt
+  exact hk' (mem_unionKeys.mpr ⟨_, List.mem_map.mpr ⟨t, ht, rfl⟩, hkt⟩)
+
+end Many
+
+/-! ### Divergences of two tables through the union alignment -/
+
+section Pairs
+
+theorem hellingerVals_perm (sqrt : ℝ → ℝ) {pq pq' : List (ℝ × ℝ)} (h : pq.Perm pq') :
+    hellingerVals sqrt pq = hellingerVals sqrt pq' := by
+  unfold hellingerVals
+  rw [Lemmas.Diverge.bcVals_perm sqrt h]
+
+theorem renyiDiv_perm (R : RealOps ℝ) (a : ℝ) {pq pq' : List (ℝ × ℝ)} (h : pq.Perm pq') :
+    renyiDiv R a pq = renyiDiv R a pq' := by
+  unfold renyiDiv
+  rw [Lemmas.Diverge.powerSum_perm R _ _ h]
+
+theorem tsallisDiv_perm (R : RealOps ℝ) (a : ℝ) {pq pq' : List (ℝ × ℝ)} (h : pq.Perm pq') :
+    tsallisDiv R a pq = tsallisDiv R a pq' := by
+  unfold tsallisDiv
+  rw [Lemmas.Diverge.powerSum_perm R _ _ h]
+
+theorem alphaDiv_perm (R : RealOps ℝ) (two four a : ℝ) {pq pq' : List (ℝ × ℝ)}
+    (h : pq.Perm pq') : alphaDiv R two four a pq = alphaDiv R two four a pq' := by
+  unfold alphaDiv
+  rw [Lemmas.Diverge.powerSum_perm R _ _ h]
+
+variable {κ α : Type} [DecidableEq κ] [AddCommMonoid α]
+
+/-- The union alignment of tables with pairwise distinct keys depends on the stored orders only
+up to the order of the pairs (any number type). -/
+theorem alignUnion_perm_gen {t1 t1' t2 t2' : Tab κ α} (h1 : t1.Perm t1') (h2 : t2.Perm t2')
+    (hnd1 : (keys t1).Nodup) (hnd2 : (keys t2).Nodup) :
+    (alignUnion t1 t2).Perm (alignUnion t1' t2') := by
+  unfold alignUnion
+  have hp : (dedup (keys t1 ++ keys t2)).Perm (dedup (keys t1' ++ keys t2')) := by
+    rw [List.perm_ext_iff_of_nodup (nodup_dedup _) (nodup_dedup _)]
+    intro a
+    simp only [mem_dedup, List.mem_append]
+    have e1 : a ∈ keys t1 ↔ a ∈ keys t1' := (h1.map (·.1)).mem_iff
+    have e2 : a ∈ keys t2 ↔ a ∈ keys t2' := (h2.map (·.1)).mem_iff
+    rw [e1, e2]
+  have e : (dedup (keys t1' ++ keys t2')).map (fun k => (lookupD 0 t1' k, lookupD 0 t2' k))
+      = (dedup (keys t1' ++ keys t2')).map (fun k => (lookupD 0 t1 k, lookupD 0 t2 k)) := by
+    apply List.map_congr_left
+    intro k _
+    rw [lookupD_perm h1 hnd1, lookupD_perm h2 hnd2]
+  rw [e]
+  exact hp.map _
+
+/-- **Union alignment under trimming**: the full tables give the pairs of the trimmed tables,
+possibly in another order, plus pairs `(0, 0)` for the labels stored with value zero only. -/
+theorem alignUnion_trim_perm [DecidableEq α] (t1 t2 : Tab κ α) (hnd1 : (keys t1).Nodup)
+    (hnd2 : (keys t2).Nodup) :
+    ∃ zs : List (α × α), (∀ p ∈ zs, p = (0, 0))
+      ∧ (alignUnion t1 t2).Perm
+          (alignUnion (t1.filter (fun r => decide (r.2 ≠ 0)))
+            (t2.filter (fun r => decide (r.2 ≠ 0))) ++ zs) := by
+  let s1 := t1.filter (fun r => decide (r.2 ≠ 0))
+  let s2 := t2.filter (fun r => decide (r.2 ≠ 0))
+  let D := dedup (keys t1 ++ keys t2)
+  let D' := dedup (keys s1 ++ keys s2)
+  let P : κ → α × α := fun k => (lookupD 0 t1 k, lookupD 0 t2 k)
+  have hP : (fun k => (lookupD 0 s1 k, lookupD 0 s2 k)) = P := by
+    funext k
+    show (lookupD 0 (t1.filter _) k, lookupD 0 (t2.filter _) k) = _
+    rw [lookupD_trim t1 hnd1, lookupD_trim t2 hnd2]
+  have hsub : ∀ a, a ∈ D' → a ∈ D := by
+    intro a ha
+    simp only [D, D', mem_dedup, List.mem_append] at ha ⊢
+    rcases ha with h | h
+    · exact Or.inl ((keys_filter_sublist _ t1).subset h)
+    · exact Or.inr ((keys_filter_sublist _ t2).subset h)
+  have hperm := perm_append_filter_of_subset (nodup_dedup _) (nodup_dedup _) hsub
+  refine ⟨(D.filter (fun a => decide (a ∉ D'))).map P, ?_, ?_⟩
+  · intro p hp
+    obtain ⟨k, hk, rfl⟩ := List.mem_map.mp hp
+    have hk' : k ∉ D' := of_decide_eq_true (List.mem_filter.mp hk).2
+    simp only [D', mem_dedup, List.mem_append, not_or] at hk'
+    rw [← hP]
+    show (lookupD 0 s1 k, lookupD 0 s2 k) = _
+    rw [lookupD_of_not_mem 0 hk'.1, lookupD_of_not_mem 0 hk'.2]
+  · show (D.map _).Perm (D'.map _ ++ _)
+    rw [hP, ← List.map_append]
+    exact hperm.map P
+
+theorem sum_alignUnion_trim [DecidableEq α] {M : Type} [AddCommMonoid M] (g : α × α → M)
+    (hg : g (0, 0) = 0) (t1 t2 : Tab κ α) (hnd1 : (keys t1).Nodup) (hnd2 : (keys t2).Nodup) :
+    ((alignUnion (t1.filter (fun r => decide (r.2 ≠ 0)))
+        (t2.filter (fun r => decide (r.2 ≠ 0)))).map g).sum
+      = ((alignUnion t1 t2).map g).sum := by
+  obtain ⟨zs, hzs, hp⟩ := alignUnion_trim_perm t1 t2 hnd1 hnd2
+  rw [(hp.map g).sum_eq, List.map_append, List.sum_append]
+  have : (zs.map g).sum = 0 := by
+    apply List.sum_eq_zero
+    intro v hv
+    obtain ⟨p, hp', rfl⟩ := List.mem_map.mp hv
+    rw [hzs p hp', hg]
+  rw [this, add_zero]
+
+end Pairs
+
+/-! ### Matrices indexed by labels -/
+
+section LMat
+variable {α ι τ : Type}
+
+theorem map_range_eq_map {β : Type} (ys : List τ) (G : Nat → β) (g : τ → β)
+    (h : ∀ k (hk : k < ys.length), G k = g ys[k]) :
+    (List.range ys.length).map G = ys.map g := by
+  apply List.ext_getElem
+  · simp
+  · intro i h1 h2
+    simp only [List.getElem_map, List.getElem_range]
+    exact h i (by simpa using h2)
+
+theorem getD_map_lt {β : Type} (ys : List τ) (g : τ → β) (d : β) (k : Nat)
+    (hk : k < ys.length) : (ys.map g).getD k d = g ys[k] := by
+  rw [List.getD_eq_getElem?_getD, List.getElem?_map, List.getElem?_eq_getElem hk]
+  rfl
+
+theorem getD_range_map {β : Type} (n : Nat) (G : Nat → β) (d : β) (k : Nat) (hk : k < n) :
+    ((List.range n).map G).getD k d = G k := by
+  rw [List.getD_eq_getElem?_getD, List.getElem?_map,
+    List.getElem?_eq_getElem (by simpa using hk)]
+  simp
+
+/-- The matrix (list of rows) with entry `v x y` at row `x ∈ xs`, column `y ∈ ys`. -/
+def lmatrix (xs : List ι) (ys : List τ) (v : ι → τ → α) : List (List α) :=
+  xs.map (fun x => ys.map (v x))
+
+/-- The square matrix with entry `a y y'`. -/
+def lmat (ys : List τ) (a : τ → τ → α) : List (List α) := lmatrix ys ys a
+
+theorem lmatrix_getD [Zero α] (xs : List ι) (ys : List τ) (v : ι → τ → α) (i j : Nat)
+    (hi : i < xs.length) (hj : j < ys.length) :
+    ((lmatrix xs ys v).getD i []).getD j 0 = v xs[i] ys[j] := by
+  unfold lmatrix
+  rw [getD_map_lt xs _ [] i hi, getD_map_lt ys _ 0 j hj]
+
+end LMat
+
+section Plan
+variable {α ι τ : Type} [Semiring α]
+
+/-- The cost of a plan is `Σ_x Σ_y D(x,y) π(x,y)`. -/
+theorem planCost_lmatrix (xs : List ι) (ys : List τ) (D P : ι → τ → α) :
+    planCost (lmatrix xs ys D) (lmatrix xs ys P)
+      = (xs.map (fun x => (ys.map (fun y => D x y * P x y)).sum)).sum := by
+  unfold planCost lmatrix
+  rw [lsum_eq_sum, Lemmas.Diverge.zipWith_map_map]
+  congr 1
+  apply List.map_congr_left
+  intro x _
+  rw [lsum_eq_sum, Lemmas.Diverge.zipWith_map_map]
+
+theorem planCost_perm {xs xs' : List ι} {ys ys' : List τ} (hx : xs'.Perm xs) (hy : ys'.Perm ys)
+    (D P : ι → τ → α) :
+    planCost (lmatrix xs' ys' D) (lmatrix xs' ys' P)
+      = planCost (lmatrix xs ys D) (lmatrix xs ys P) := by
+  rw [planCost_lmatrix, planCost_lmatrix, (hx.map _).sum_eq]
+  congr 1
+  apply List.map_congr_left
+  intro x _
+  exact (hy.map _).sum_eq
+
+end Plan
+
+/-! ### Maximum correlation: companion matrix and characteristic polynomial -/
+
+section MaxCorr
+variable {α ι τ : Type} [Field α] [DecidableEq α] [DecidableEq τ]
+
+/-- Entry `(y, y')` of the companion matrix of the joint `v` on `xs × ys`:
+`Σ_x v(x,y) v(x,y') / (p_X(x) p_Y(y'))`, rows / columns of zero marginal skipped. -/
+def ccL (v : ι → τ → α) (xs : List ι) (ys : List τ) (y y' : τ) : α :=
+  (xs.map (fun x =>
+    if (ys.map (v x)).sum = 0 ∨ (xs.map (fun x' => v x' y')).sum = 0 then 0
+    else v x y * v x y' / ((ys.map (v x)).sum * (xs.map (fun x' => v x' y')).sum))).sum
+
+theorem ccL_perm (v : ι → τ → α) {xs xs' : List ι} {ys ys' : List τ} (hx : xs'.Perm xs)
+    (hy : ys'.Perm ys) : ccL v xs' ys' = ccL v xs ys := by
+  funext y y'
+  unfold ccL
+  rw [(hx.map _).sum_eq]
+  congr 1
+  apply List.map_congr_left
+  intro x _
+  rw [(hy.map (v x)).sum_eq, (hx.map (fun x' => v x' y')).sum_eq]
+
+theorem maxcorrCompanion_nil : maxcorrCompanion ([] : List (List α)) = [] := rfl
+
+/-- The companion matrix of a label-indexed joint matrix is label-indexed. -/
+theorem maxcorrCompanion_lmatrix (v : ι → τ → α) (xs : List ι) (ys : List τ) (hne : xs ≠ []) :
+    maxcorrCompanion (lmatrix xs ys v) = lmat ys (ccL v xs ys) := by
+  have hny : ((lmatrix xs ys v).head?.getD []).length = ys.length := by
+    cases xs with
+    | nil => exact absurd rfl hne
+    | cons x t => simp [lmatrix]
+  unfold maxcorrCompanion
+  simp only [hny]
+  unfold lmat
+  conv_rhs => unfold lmatrix
+  apply map_range_eq_map
+  intro j hj
+  apply map_range_eq_map
+  intro k hk
+  rw [lsum_eq_sum, Lemmas.Diverge.zipWith_map_self, getD_range_map _ _ _ k hk, lsum_eq_sum]
+  unfold ccL lmatrix
+  rw [List.map_map, List.map_map]
+  congr 1
+  apply List.map_congr_left
+  intro x _
+  simp only [Function.comp_apply, lsum_eq_sum, Bool.or_eq_true, beq_iff_eq]
+  rw [getD_map_lt ys _ 0 j hj, getD_map_lt ys _ 0 k hk]
+  have e : (xs.map ((fun row : List α => row.getD k 0) ∘ fun x => ys.map (v x)))
+      = xs.map (fun x' => v x' ys[k]) := by
+    apply List.map_congr_left
+    intro x' _
+    exact getD_map_lt ys _ 0 k hk
+  rw [e]
+
+/-! The Faddeev–LeVerrier recursion on label-indexed matrices. -/
+
+theorem charPoly_eq (ofNat : Nat → α) (A : List (List α)) :
+    charPoly ofNat A
+      = ((List.range A.length).foldl (fun (acc : List (List α) × List α) k =>
+          (matAddScalar (matMul A acc.1) (-(matTrace (matMul A acc.1)) / ofNat (k + 1)),
+            acc.2 ++ [-(matTrace (matMul A acc.1)) / ofNat (k + 1)]))
+          ((List.range A.length).map (fun i => (List.range A.length).map
+            (fun j => if i = j then (1 : α) else 0)), [])).2 := rfl
+
+theorem length_lmat (ys : List τ) (a : τ → τ → α) : (lmat ys a).length = ys.length := by
+  simp [lmat, lmatrix]
+
+theorem matMul_lmat (ys : List τ) (a m : τ → τ → α) :
+    matMul (lmat ys a) (lmat ys m)
+      = lmat ys (fun y y' => (ys.map (fun z => a y z * m z y')).sum) := by
+  by_cases hne : ys = []
+  · subst hne; rfl
+  have hny : (((lmat ys m).head?).getD []).length = ys.length := by
+    cases ys with
+    | nil => exact absurd rfl hne
+    | cons x t => simp [lmat, lmatrix]
+  unfold matMul
+  simp only [hny]
+  conv_lhs => unfold lmat lmatrix
+  conv_rhs => unfold lmat lmatrix
+  rw [List.map_map]
+  apply List.map_congr_left
+  intro y _
+  simp only [Function.comp_apply]
+  apply map_range_eq_map
+  intro k hk
+  rw [lsum_eq_sum, Lemmas.Diverge.zipWith_map_map]
+  congr 1
+  apply List.map_congr_left
+  intro z _
+  rw [getD_map_lt ys _ 0 k hk]
+
+theorem matTrace_lmat (ys : List τ) (f : τ → τ → α) :
+    matTrace (lmat ys f) = (ys.map (fun y => f y y)).sum := by
+  unfold matTrace
+  rw [lsum_eq_sum, length_lmat]
+  congr 1
+  apply map_range_eq_map
+  intro i hi
+  exact lmatrix_getD ys ys f i i hi hi
+
+theorem matAddScalar_lmat (ys : List τ) (hnd : ys.Nodup) (f : τ → τ → α) (c : α) :
+    matAddScalar (lmat ys f) c = lmat ys (fun y y' => f y y' + if y = y' then c else 0) := by
+  unfold matAddScalar
+  rw [length_lmat]
+  conv_rhs => unfold lmat lmatrix
+  apply map_range_eq_map
+  intro i hi
+  apply map_range_eq_map
+  intro j hj
+  rw [show lmat ys f = lmatrix ys ys f from rfl, lmatrix_getD ys ys f i j hi hj]
+  congr 1
+  by_cases e : i = j
+  · subst e; simp
+  · have : ys[i] ≠ ys[j] := fun h => e ((hnd.getElem_inj_iff).mp h)
+    simp [e, this]
+
+theorem ident_lmat (ys : List τ) (hnd : ys.Nodup) :
+    (List.range ys.length).map (fun i => (List.range ys.length).map
+        (fun j => if i = j then (1 : α) else 0))
+      = lmat ys (fun y y' => if y = y' then 1 else 0) := by
+  conv_rhs => unfold lmat lmatrix
+  apply map_range_eq_map
+  intro i hi
+  apply map_range_eq_map
+  intro j hj
+  by_cases e : i = j
+  · subst e; simp
+  · have : ys[i] ≠ ys[j] := fun h => e ((hnd.getElem_inj_iff).mp h)
+    simp [e, this]
+
+/-- One step of the recursion on entry functions; depends on `ys` only through sums over it. -/
+def stepL (ofNat : Nat → α) (ys : List τ) (a : τ → τ → α) (acc : (τ → τ → α) × List α)
+    (k : Nat) : (τ → τ → α) × List α :=
+  (fun y y' => (ys.map (fun z => a y z * acc.1 z y')).sum
+      + if y = y' then
+          -((ys.map (fun y => (ys.map (fun z => a y z * acc.1 z y)).sum)).sum) / ofNat k
+        else 0,
+    acc.2 ++ [-((ys.map (fun y => (ys.map (fun z => a y z * acc.1 z y)).sum)).sum) / ofNat k])
+
+theorem stepL_perm (ofNat : Nat → α) {ys ys' : List τ} (h : ys'.Perm ys) (a : τ → τ → α) :
+    stepL ofNat ys' a = stepL ofNat ys a := by
+  funext acc k
+  have h1 : ∀ y y', (ys'.map (fun z => a y z * acc.1 z y')).sum
+      = (ys.map (fun z => a y z * acc.1 z y')).sum := fun y y' => (h.map _).sum_eq
+  have h2 : (ys'.map (fun y => (ys.map (fun z => a y z * acc.1 z y)).sum)).sum
+      = (ys.map (fun y => (ys.map (fun z => a y z * acc.1 z y)).sum)).sum := (h.map _).sum_eq
+  unfold stepL
+  simp only [h1, h2]
+
+theorem foldl_step_lmat (ofNat : Nat → α) (ys : List τ) (hnd : ys.Nodup) (a : τ → τ → α)
+    (ks : List Nat) (m : τ → τ → α) (cs : List α) :
+    ks.foldl (fun (acc : List (List α) × List α) k =>
+        (matAddScalar (matMul (lmat ys a) acc.1)
+            (-(matTrace (matMul (lmat ys a) acc.1)) / ofNat (k + 1)),
+          acc.2 ++ [-(matTrace (matMul (lmat ys a) acc.1)) / ofNat (k + 1)]))
+        (lmat ys m, cs)
+      = (lmat ys (ks.foldl (fun acc k => stepL ofNat ys a acc (k + 1)) (m, cs)).1,
+          (ks.foldl (fun acc k => stepL ofNat ys a acc (k + 1)) (m, cs)).2) := by
+  induction ks generalizing m cs with
+  | nil => rfl
+  | cons k ks ih =>
+    rw [List.foldl_cons, List.foldl_cons]
+    simp only [matMul_lmat, matTrace_lmat, matAddScalar_lmat ys hnd]
+    exact ih _ _
+
+theorem charPoly_lmat (ofNat : Nat → α) (ys : List τ) (hnd : ys.Nodup) (a : τ → τ → α) :
+    charPoly ofNat (lmat ys a)
+      = ((List.range ys.length).foldl (fun acc k => stepL ofNat ys a acc (k + 1))
+          (fun y y' => if y = y' then 1 else 0, [])).2 := by
+  rw [charPoly_eq, length_lmat, ident_lmat ys hnd, foldl_step_lmat ofNat ys hnd]
+
+/-- **Permutation similarity preserves the characteristic polynomial** as computed by `charPoly`:
+listing the labels in another order gives the same coefficients. -/
+theorem charPoly_lmat_perm (ofNat : Nat → α) {ys ys' : List τ} (h : ys'.Perm ys) (hnd : ys.Nodup)
+    (a : τ → τ → α) : charPoly ofNat (lmat ys' a) = charPoly ofNat (lmat ys a) := by
+  rw [charPoly_lmat ofNat ys hnd, charPoly_lmat ofNat ys' (h.nodup_iff.mpr hnd), h.length_eq,
+    stepL_perm ofNat h]
+
+/-- Permuting the rows (symbols of `X`) leaves the companion matrix itself unchanged. -/
+theorem maxcorrCompanion_perm_rows (v : ι → τ → α) {xs xs' : List ι} (hx : xs'.Perm xs)
+    (ys : List τ) :
+    maxcorrCompanion (lmatrix xs' ys v) = maxcorrCompanion (lmatrix xs ys v) := by
+  by_cases hne : xs = []
+  · subst hne
+    rw [List.perm_nil.mp hx]
+  have hne' : xs' ≠ [] := fun e => hne (List.nil_perm.mp (e ▸ hx))
+  rw [maxcorrCompanion_lmatrix v xs ys hne, maxcorrCompanion_lmatrix v xs' ys hne',
+    ccL_perm v hx (List.Perm.refl ys)]
+
+/-- Permuting rows and columns (symbols of `X` and of `Y`) leaves the characteristic polynomial
+of the companion matrix unchanged. -/
+theorem charPoly_maxcorr_perm (ofNat : Nat → α) (v : ι → τ → α) {xs xs' : List ι}
+    {ys ys' : List τ} (hx : xs'.Perm xs) (hy : ys'.Perm ys) (hnd : ys.Nodup) :
+    charPoly ofNat (maxcorrCompanion (lmatrix xs' ys' v))
+      = charPoly ofNat (maxcorrCompanion (lmatrix xs ys v)) := by
+  by_cases hne : xs = []
+  · subst hne
+    rw [List.perm_nil.mp hx]
+    rfl
+  have hne' : xs' ≠ [] := fun e => hne (List.nil_perm.mp (e ▸ hx))
+  rw [maxcorrCompanion_lmatrix v xs ys hne, maxcorrCompanion_lmatrix v xs' ys' hne',
+    ccL_perm v hx hy, charPoly_lmat_perm ofNat hy hnd]
+
+/-- Every rectangular list-of-rows matrix is label-indexed by its row and column numbers. -/
+theorem lmatrix_getD_self (M : List (List α)) (n : Nat) (hrow : ∀ row ∈ M, row.length = n) :
+    M = lmatrix (List.range M.length) (List.range n) (fun i j => (M.getD i []).getD j 0) := by
+  unfold lmatrix
+  apply List.ext_getElem
+  · simp
+  · intro i h1 h2
+    have hr : (M[i]).length = n := hrow _ (List.getElem_mem h1)
+    simp only [List.getElem_map, List.getElem_range]
+    have e : M.getD i [] = M[i] := by
+      rw [List.getD_eq_getElem?_getD, List.getElem?_eq_getElem h1]; rfl
+    rw [e]
+    apply List.ext_getElem
+    · simp [hr]
+    · intro j h3 h4
+      simp only [List.getElem_map, List.getElem_range]
+      rw [List.getD_eq_getElem?_getD, List.getElem?_eq_getElem h3]
+      rfl
+
+end MaxCorr
+
+/-! ### The joint matrix of a two-variable table; zero padding of several tables -/
+
+section Joint
+variable {α σ τ : Type} [DecidableEq σ] [DecidableEq τ]
+
+/-- The joint pmf matrix (rows `x ∈ xs`, columns `y ∈ ys`) of a table of two-variable outcomes
+`[x, y]`, absent outcomes read `0`: the input of `maxcorrCompanion`. -/
+def jointMat [Zero α] (xs ys : List σ) (t : Tab (List σ) α) : List (List α) :=
+  lmatrix xs ys (fun x y => lookupD 0 t [x, y])
+
+theorem jointMat_congr [Zero α] (xs ys : List σ) (t t' : Tab (List σ) α)
+    (h : ∀ o, lookupD 0 t' o = lookupD 0 t o) : jointMat xs ys t' = jointMat xs ys t := by
+  unfold jointMat
+  simp only [h]
+
+theorem jointMat_relabel [AddCommMonoid α] (ρ : Nat → σ → τ) (hρ : ∀ i, Function.Injective (ρ i))
+    (xs ys : List σ) (t : Tab (List σ) α) :
+    jointMat (xs.map (ρ 0)) (ys.map (ρ 1)) (relabelTab ρ t) = jointMat xs ys t := by
+  unfold jointMat lmatrix
+  rw [List.map_map]
+  apply List.map_congr_left
+  intro x _
+  simp only [Function.comp_apply]
+  rw [List.map_map]
+  apply List.map_congr_left
+  intro y _
+  simp only [Function.comp_apply]
+  exact lookupD_map_inj (relabelOutcome ρ) (relabelOutcome_injective ρ hρ) t [x, y]
+
+theorem jsd_padZeros [Ring α] [DecidableEq α] (log : α → α)
+    (ets : List (List (List σ) × Tab (List σ) α)) (w : List α) :
+    jsdVals log (alignMany (ets.map (fun r => padZeros r.1 r.2))) w
+      = jsdVals log (alignMany (ets.map Prod.snd)) w := by
+  have h := jsd_append_zero log
+    (ets.map (fun r => (r.2, (r.1.filter (fun o => !(keys r.2).contains o)).map
+      (fun o => (o, (0 : α)))))) w (by
+        intro r hr x hx
+        obtain ⟨e, _, rfl⟩ := List.mem_map.mp hr
+        obtain ⟨o, _, rfl⟩ := List.mem_map.mp hx
+        rfl)
+  rw [List.map_map, List.map_map] at h
+  exact h
+
+end Joint
+
+/-! ### Bhattacharyya coefficient and power sums under zero rows -/
+
+section PairsReal
+variable {κ : Type} [DecidableEq κ]
+
+theorem bcVals_append_zero (sqrt : ℝ → ℝ) (hs : sqrt 0 = 0) (t1 z1 t2 z2 : Tab κ ℝ)
+    (hz1 : ∀ r ∈ z1, r.2 = 0) (hz2 : ∀ r ∈ z2, r.2 = 0) :
+    bcVals sqrt (alignUnion (t1 ++ z1) (t2 ++ z2)) = bcVals sqrt (alignUnion t1 t2) := by
+  unfold bcVals
+  rw [lsum_eq_sum, lsum_eq_sum]
+  exact sum_alignUnion_append_zero (fun r : ℝ × ℝ => sqrt (r.1 * r.2)) (by simp [hs])
+    t1 z1 t2 z2 hz1 hz2
+
+theorem powerSum_append_zero (R : RealOps ℝ) (a b : ℝ) (t1 z1 t2 z2 : Tab κ ℝ)
+    (hz1 : ∀ r ∈ z1, r.2 = 0) (hz2 : ∀ r ∈ z2, r.2 = 0) :
+    powerSum R a b (alignUnion (t1 ++ z1) (t2 ++ z2)) = powerSum R a b (alignUnion t1 t2) := by
+  unfold powerSum
+  rw [lsum_eq_sum, lsum_eq_sum]
+  exact sum_alignUnion_append_zero
+    (fun r : ℝ × ℝ => if (r.1 == 0 || r.2 == 0) = true then 0 else R.pow r.1 a * R.pow r.2 b)
+    (by simp) t1 z1 t2 z2 hz1 hz2
+
+theorem bcVals_trim (sqrt : ℝ → ℝ) (hs : sqrt 0 = 0) (t1 t2 : Tab κ ℝ)
+    (hnd1 : (keys t1).Nodup) (hnd2 : (keys t2).Nodup) :
+    bcVals sqrt (alignUnion (t1.filter (fun r => decide (r.2 ≠ 0)))
+        (t2.filter (fun r => decide (r.2 ≠ 0)))) = bcVals sqrt (alignUnion t1 t2) := by
+  unfold bcVals
+  rw [lsum_eq_sum, lsum_eq_sum]
+  exact sum_alignUnion_trim (fun r : ℝ × ℝ => sqrt (r.1 * r.2)) (by simp [hs]) t1 t2 hnd1 hnd2
+
+theorem powerSum_trim (R : RealOps ℝ) (a b : ℝ) (t1 t2 : Tab κ ℝ)
+    (hnd1 : (keys t1).Nodup) (hnd2 : (keys t2).Nodup) :
+    powerSum R a b (alignUnion (t1.filter (fun r => decide (r.2 ≠ 0)))
+        (t2.filter (fun r => decide (r.2 ≠ 0)))) = powerSum R a b (alignUnion t1 t2) := by
+  unfold powerSum
+  rw [lsum_eq_sum, lsum_eq_sum]
+  exact sum_alignUnion_trim
+    (fun r : ℝ × ℝ => if (r.1 == 0 || r.2 == 0) = true then 0 else R.pow r.1 a * R.pow r.2 b)
+    (by simp) t1 t2 hnd1 hnd2
+
+theorem tvVals_append_zero (two : ℝ) (t1 z1 t2 z2 : Tab κ ℝ)
+    (hz1 : ∀ r ∈ z1, r.2 = 0) (hz2 : ∀ r ∈ z2, r.2 = 0) :
+    tvVals two (alignUnion (t1 ++ z1) (t2 ++ z2)) = tvVals two (alignUnion t1 t2) := by
+  unfold tvVals
+  rw [lsum_eq_sum, lsum_eq_sum]
+  congr 1
+  exact sum_alignUnion_append_zero (fun r : ℝ × ℝ => absV (r.1 - r.2)) (by simp [absV])
+    t1 z1 t2 z2 hz1 hz2
+
+/-- Cross entropy over the union alignment equals cross entropy along `t1`. -/
+theorem xent_alignUnion (log : ℝ → ℝ) (t1 t2 : Tab κ ℝ) (hnd : (keys t1).Nodup) :
+    crossEntropyVals log (alignUnion t1 t2) = crossEntropyVals log (alignPair t1 t2) := by
+  rw [Lemmas.Diverge.alignUnion_eq t1 t2 hnd]
+  apply Lemmas.Diverge.xentVals_append_zero
+  intro r hr
+  obtain ⟨k, _, rfl⟩ := List.mem_map.mp hr
+  rfl
+
+end PairsReal
 
 end Dit.Lemmas.DivInv
